@@ -52,10 +52,15 @@ class HouseholderSequence(Transform):
             ).long()
             return torch.index_select(a, dim, order_index)
 
-        qv = tile(torch.eye(num_transforms // 2, features), 0, 2)
+        # Unit vectors, cycling through the axes when there are more pairs than features (a plain
+        # torch.eye(num_pairs, features) has all-zero rows then, i.e. reflections along the zero
+        # vector, which are NaN).
+        num_pairs = num_transforms // 2
+        basis = torch.eye(features)[torch.arange(num_pairs) % features]
+        qv = tile(basis, 0, 2)
         if np.mod(num_transforms, 2) != 0:  # odd number of transforms, including 1
             qv = torch.cat((qv, torch.zeros(1, features)))
-            qv[-1, num_transforms // 2] = 1
+            qv[-1, num_pairs % features] = 1
         self.q_vectors = nn.Parameter(qv)
 
     @staticmethod
